@@ -277,8 +277,19 @@ func (r *Run) examineCrashes() {
 			}
 			sort.Strings(kns)
 			for _, kn := range kns {
-				ks := r.observeKey(bn, kn)
 				ePre, ePost := liveOf(cp.pre, bn, kn), liveOf(post, bn, kn)
+				if ePre != nil && ePre.Tag == "bulk" {
+					// objects of a bulk fill are judged from the listing alone
+					// (size and ETag); anything odd falls through to a full read
+					l, isListed := listed[kn]
+					line := func(e *model.Entity) string { return fmt.Sprintf("%d|\"%s\"", len(e.Body), e.MD5) }
+					okPre := isListed && l == line(ePre)
+					okPost := (ePost == nil && !isListed) || (ePost != nil && isListed && l == line(ePost))
+					if okPre || (okPost && !(inPre && !inPost)) {
+						continue
+					}
+				}
+				ks := r.observeKey(bn, kn)
 				if k := cp.pre.Buckets[bn]; k != nil && k.Keys[kn] != nil && k.Keys[kn].Indet {
 					continue
 				}
@@ -286,6 +297,12 @@ func (r *Run) examineCrashes() {
 					continue
 				}
 				okState := entityMatches(ks, ePre) || entityMatches(ks, ePost)
+				if inPre && !inPost {
+					// the in-flight operation deletes this bucket (a forced
+					// deletion takes its objects along): the bucket is still
+					// here, so it must be here whole
+					okState = entityMatches(ks, ePre)
+				}
 				// listing must agree with what a read returns
 				if ks.Status == 200 {
 					want := fmt.Sprintf("%d|\"%s\"", ks.Size, ks.MD5)
@@ -299,7 +316,7 @@ func (r *Run) examineCrashes() {
 					continue
 				}
 				cl, what := "crash.acked", "an acknowledged object is not intact after a kill"
-				if ePre != ePost {
+				if ePre != ePost || (inPre && !inPost) {
 					cl, what = "crash.atomic", "a write in flight at the kill is neither wholly present nor wholly absent"
 				} else if ePre == nil {
 					what = "a key that was never acknowledged appears after a kill"
